@@ -37,6 +37,9 @@ func (l limbRef) String() string {
 }
 
 // limbCells: which values denote the two operands' limb arrays (the pointer parameters, and local copies of them).
+// regularCells: local copies produced by ToRegular (no FromMont needed on them).
+var regularCells = map[ssa.Value]bool{}
+
 func limbCells(fn *ssa.Function) map[ssa.Value]int {
 	cells := map[ssa.Value]int{}
 	for i, p := range fn.Params {
@@ -50,6 +53,20 @@ func limbCells(fn *ssa.Function) map[ssa.Value]int {
 			return
 		}
 		al, isAl := st.Addr.(*ssa.Alloc)
+		// zReg := z.ToRegular(): a local copy that is already out of Montgomery form
+		if call, isCall := st.Val.(*ssa.Call); isAl && isCall && core.IsMethod(core.Callee(call.Common()), "bandersnatch/fr", "Element", "ToRegular") && len(call.Call.Args) == 1 {
+			src := call.Call.Args[0]
+			if ld, isLd := src.(*ssa.UnOp); isLd && ld.Op == token.MUL {
+				src = ld.X
+			}
+			if who, isParam := cells[src]; isParam {
+				if _, isP := src.(*ssa.Parameter); isP && len(storesInto(al)) == 1 {
+					cells[al] = who
+					regularCells[al] = true
+				}
+			}
+			return
+		}
 		u, isLoad := st.Val.(*ssa.UnOp)
 		if !isAl || !isLoad || u.Op != token.MUL {
 			return
@@ -347,6 +364,9 @@ func RuleO1(c *Ctx) {
 							bad = append(bad, fmt.Sprintf("reads limbs of operand %d in Montgomery form, whose order is not the order of the values (%s)", who, c.P.Pos(ia.Pos())))
 						}
 					})
+					continue
+				}
+				if regularCells[al] {
 					continue
 				}
 				var conv []ssa.Instruction
